@@ -72,6 +72,14 @@ const NUMBERS: [&str; 30] = [
     "-1", "+5", "-", "+", "9223372036854775808", "-9223372036854775809", "18446744073709551616",
 ];
 const SPACES: [&str; 7] = [" ", "  ", "\t", "\n", "\u{3000}", "\u{a0}", "   "];
+/// invisible / default-ignorable / combining code points and emoji sequences that carry them:
+/// none of them is an identifier character, a blank or a keyword, so each must be refused
+/// (or end a token) cleanly wherever it stands
+pub const INVISIBLE: [&str; 26] = [
+    "\u{fe0f}", "\u{fe0e}", "\u{200d}", "\u{200b}", "\u{200c}", "\u{2060}", "\u{feff}", "\u{ad}", "\u{34f}", "\u{61c}", "\u{180e}", "\u{301}", "\u{20e3}",
+    "\u{2028}", "\u{85}", "\u{1f}", "\u{7f}", "\u{202e}", "\u{e0001}", "\u{e0100}",
+    "🏗\u{fe0f}", "♻\u{fe0f}", "1\u{fe0f}\u{20e3}", "👨\u{200d}👩\u{200d}👧", "e\u{301}", "\u{3164}",
+];
 const STRAY: [&str; 16] = ["(", ")", "<", ">", "{", "}", "[", "]", "\\", "/", "|", "-", "=", "_", "`", "@"];
 
 fn piece(fi: usize) -> BoxedStrategy<String> {
@@ -84,6 +92,7 @@ fn piece(fi: usize) -> BoxedStrategy<String> {
         12 => select(NUMBERS.to_vec()).prop_map(|s| s.to_string()),
         7 => select(SPACES.to_vec()).prop_map(|s| s.to_string()),
         4 => select(STRAY.to_vec()).prop_map(|s| s.to_string()),
+        4 => select(INVISIBLE.to_vec()).prop_map(|s| s.to_string()),
         4 => (select(ops), 1usize..=64).prop_map(|(o, n)| o.repeat(n)),
         2 => (select(cls), 1usize..=8).prop_map(|(o, n)| o.repeat(n)),
         6 => small_value_text(fi),
@@ -219,9 +228,11 @@ pub fn nests(fi: usize) -> BoxedStrategy<String> {
 
 pub fn unicode(fi: usize) -> BoxedStrategy<String> {
     let small: Vec<char> = "<>(){}[]$%:;,.!?@#^+-_*/\\|&~= \t\n0123456789aAbz是得同为有将现曾具预算真值、，。「」『』【】（）".chars().collect();
+    let pieces: Vec<String> = small.iter().map(|c| c.to_string()).chain(INVISIBLE.iter().map(|s| s.to_string())).collect();
     prop_oneof![
-        50 => vec(select(small), 0..80).prop_map(|v| v.into_iter().collect::<String>()),
-        50 => "\\PC{0,60}",
+        40 => vec(select(small), 0..80).prop_map(|v| v.into_iter().collect::<String>()),
+        20 => vec(select(pieces), 0..60).prop_map(|v| v.concat()),
+        40 => "\\PC{0,60}",
     ]
     .prop_map(move |s| clip(fi, &s))
     .boxed()
@@ -280,6 +291,7 @@ pub fn token_alphabet(fi: usize, core: bool) -> Vec<String> {
             f.sentence.stamp_fixed.to_string(),
             f.atom.prefix_interval.to_string(),
             " ".to_string(),
+            "\u{fe0f}".to_string(),
         ]);
     }
     v.sort();
